@@ -19,7 +19,9 @@
    fact REFUTED by the model - [C14_hover_full_refuted], known finding C14-hover-local-before-global;
    outside that class both halves are validated by correspondence + oracle. *)
 From Coq Require Import String.
-From Spl Require Import Model.Hover Model.SigHelp Model.Fold Proofs.HoverProofs.
+From Spl Require Import Props.C03.
+From Spl Require Import Proofs.GrammarProofs Spec.Typing Proofs.TypingProofs Proofs.RenderProofs Proofs.PipelineText.
+From Spl Require Import Model.Hover Model.SigHelp Model.Fold Proofs.HoverProofs Proofs.HoverValid.
 Local Open Scope string_scope.
 Local Open Scope list_scope.
 Local Open Scope N_scope.
@@ -40,7 +42,7 @@ Theorem C14_hover_answer : forall (d : doc) line col v r,
     token_at (d_toks d) index = Some t /\ In t (d_toks d) /\ tk t = Ident name /\
     ts t <= index /\ index < te t /\
     r = (as_position (ts t) (d_text d), as_position (te t) (d_text d)) /\
-    hover_entry d ctx name = Some e /\ v = hover_text e.
+    hover_entry d ctx (global_position_at (d_toks d) index) name = Some e /\ v = hover_text e.
 Proof. exact hover_inv. Qed.
 Print Assumptions C14_hover_answer.
 
@@ -56,16 +58,46 @@ Example C14_hover_answer_ex :
   end.
 Proof. vm_compute. repeat split; reflexivity. Qed.
 
-Theorem C14_hover_entry : forall (d : doc) ctx name e,
-  hover_entry d ctx name = Some e ->
+Theorem C14_hover_entry : forall (d : doc) ctx gp name e,
+  hover_entry d ctx gp name = Some e ->
   match ctx with
   | GTypeE _ => exists g, lookup (d_table d) name = Some g /\ e = entry_of_g g
   | GProcE p =>
-      (exists l, lookup (pe_local p) name = Some l /\ e = entry_of_l l)
-      \/ (lookup (pe_local p) name = None /\ exists g, lookup (d_table d) name = Some g /\ e = entry_of_g g)
+      (gp = false /\ exists l, lookup (pe_local p) name = Some l /\ e = entry_of_l l)
+      \/ ((gp = true \/ lookup (pe_local p) name = None) /\
+          exists g, lookup (d_table d) name = Some g /\ e = entry_of_g g)
   end.
 Proof. exact hover_entry_inv. Qed.
 Print Assumptions C14_hover_entry.
+
+(* is_global_position: the last non-comment token in front of the FIRST token under the cursor is
+   `proc`, `type`, `:` or `of` *)
+Theorem C14_global_position : forall toks index t,
+  token_at toks index = Some t ->
+  exists pre post, toks = pre ++ t :: post /\
+    forallb (fun x => negb (in_range (ts x, te x) index)) pre = true /\
+    global_position_at toks index = global_kind (prev_kind None pre).
+Proof. exact global_position_spec. Qed.
+Print Assumptions C14_global_position.
+
+(* the two witnesses of the repaired defect C14-hover-local-before-global (b909979): the name of a
+   procedure that declares a local of the same name; a type name in a parameter / variable declaration
+   of a procedure that declares a local of that name; and the local uses next to them *)
+Example C14_global_position_ex :
+  match new_doc_res (str "proc k() { var k: int; k := 1; }" ++ [10] ++ str "proc main() {}"),
+        new_doc_res (str "type t = int;" ++ [10] ++ str "proc p(a: t) { var t: t; t := a; }" ++ [10] ++ str "proc main() {}") with
+  | ODone d1, ODone d2 =>
+      let code s := str "```spl" ++ [10] ++ str s ++ [10] ++ str "```" in
+      hover d1 0 5 = ROk (Some (code "proc k()", ((0, 5), (0, 6))))
+      /\ hover d1 0 15 = ROk (Some (code "k: int", ((0, 15), (0, 16))))
+      /\ hover d1 0 23 = ROk (Some (code "k: int", ((0, 23), (0, 24))))
+      /\ hover d2 1 10 = ROk (Some (code "int", ((1, 10), (1, 11))))
+      /\ hover d2 1 19 = ROk (Some (code "t: int", ((1, 19), (1, 20))))
+      /\ hover d2 1 22 = ROk (Some (code "int", ((1, 22), (1, 23))))
+      /\ hover d2 1 25 = ROk (Some (code "t: int", ((1, 25), (1, 26))))
+  | _, _ => False
+  end.
+Proof. vm_compute. repeat split; reflexivity. Qed.
 
 Theorem C14_hover_none : forall (d : doc) line col,
   (forall t name, In t (d_toks d) -> tk t = Ident name ->
@@ -171,9 +203,157 @@ Definition C14_hover_full_statement : Prop := hover_full_statement.
    index between its parentheses *)
 Definition C14_sighelp_full_statement : Prop := sighelp_full_statement.
 
-(* the hover half does NOT hold for the code as it is: on the name of `proc k() { var k: int; ... }`
-   hover answers with the local variable k (witness evaluated by vm_compute, replayed on the server
-   by corpus/C14/proc_name_vs_local.json) *)
-Theorem C14_hover_full_refuted : ~ C14_hover_full_statement.
-Proof. exact hover_full_refuted. Qed.
-Print Assumptions C14_hover_full_refuted.
+(* ---- the hover half, PROVED for every valid program in every layout ----
+   p ranges over the abstract programs of the grammar (Spec/Grammar.v; a comment slot in front of every
+   token, [prog_ok] = the dangling-else discipline), G over the global tables that the declarative static
+   semantics (Spec/Typing.v [well_typed]) accepts for the tree the grammar mandates, t over the texts
+   that lex to p's token kinds, i.e. over all layouts of p.  For every identifier occurrence of the tree -
+   (owner, (k, x, sc)): token number k, spelling x, inside the declaration named owner, scope sc by
+   syntactic role: the name of a type/procedure declaration, a name inside a type expression and a callee
+   are global, parameter/variable names and variables in statements are resolved in the procedure first -
+   and every cursor position inside that token, hover answers with the Display of the entry the occurrence
+   is BOUND to ([binding]: SPL scoping on the tables of the document) + its documentation block, over
+   exactly the token's range.  This is [C14_hover_full_statement] with "document without diagnostics"
+   replaced by "layout of a well-typed abstract program" (the formulation of C03_no_false_positive and
+   C17_valid); what the former would need in addition is the completeness of the front end (no diagnostic
+   => the text is a layout of a well-typed abstract program), which is not proved. *)
+Theorem C14_hover_valid : forall (p : aprog) (G : gtable) (t : text) (toks : list token) (d : doc),
+  prog_ok p = true -> well_typed (expected p) G ->
+  lex t = Some toks -> map tk toks = flatten p ++ [Eof] ->
+  new_doc_res t = ODone d ->
+  forall owner k x sc, In (owner, (k, x, sc)) (program_occs (expected p)) ->
+  forall tok line col, nth_error toks k = Some tok ->
+    ts tok <= get_insertion_index line col t -> get_insertion_index line col t < te tok ->
+    exists e, binding d owner sc x = Some e /\
+      hover d line col = ROk (Some (hover_text e, (as_position (ts tok) t, as_position (te tok) t))).
+Proof. exact hover_valid. Qed.
+Print Assumptions C14_hover_valid.
+
+(* ... from text: every rendering of a valid abstract program (any white space gaps satisfying gaps_ok,
+   comments in any token gap; Proofs/RenderProofs.v, Proofs/PipelineText.v, explained in Props/C04.v)
+   is such a layout, and the analysis never fails on it *)
+Theorem C14_hover_valid_text : forall (p : aprog) (G : gtable) gaps (t : text),
+  prog_ok p = true -> aprog_valid p = true -> gaps_ok (flatten p) gaps -> render_kinds (flatten p) gaps = Some t ->
+  well_typed (expected p) G ->
+  exists toks d, lex t = Some toks /\ map tk toks = flatten p ++ [Eof] /\ new_doc_res t = ODone d /\
+  forall owner k x sc, In (owner, (k, x, sc)) (program_occs (expected p)) ->
+  forall tok line col, nth_error toks k = Some tok ->
+    ts tok <= get_insertion_index line col t -> get_insertion_index line col t < te tok ->
+    exists e, binding d owner sc x = Some e /\
+      hover d line col = ROk (Some (hover_text e, (as_position (ts tok) t, as_position (te tok) t))).
+Proof.
+  intros p G gaps t Hok Hv Hg Hr Hwt. destruct (text_layout_of p gaps t Hv Hg Hr) as [toks [Hl Hk]].
+  exists toks, {| d_text := t; d_toks := toks; d_ast := expected p; d_table := G |}.
+  assert (Hd : new_doc_res t = ODone {| d_text := t; d_toks := toks; d_ast := expected p; d_table := G |}).
+  { destruct (no_false_positive_tree _ _ (expected_clean p) Hwt) as [Hb [Ha _]].
+    unfold new_doc_res. now rewrite Hl, (roundtrip p toks Hok Hk), Hb, Ha. }
+  repeat split; try assumption. now apply (hover_valid p G t toks).
+Qed.
+Print Assumptions C14_hover_valid_text.
+
+(* hover computed on ANY document whose tokens are in text order: the cursor inside identifier token
+   number k, the declaration find_decl returns, its table entry, the entry hover_entry finds with
+   global_position = "the last non-comment token in front of token k is `proc`, `type`, `:` or `of`" *)
+Theorem C14_hover_at : forall (d : doc) line col k tok x gd D ctx e,
+  let index := get_insertion_index line col (d_text d) in
+  toks_sorted (d_toks d) = true -> nth_error (d_toks d) k = Some tok -> tk tok = Ident x ->
+  ts tok <= index -> index < te tok ->
+  find_decl (d_toks d) index (pg_decls (d_ast d)) = ROk (Some (gd, D)) ->
+  match gdecl_name gd with Some n => lookup (d_table d) (id_val n) | None => None end = Some ctx ->
+  hover_entry d ctx (global_kind (prev_kind_k None (firstn k (map tk (d_toks d))))) x = Some e ->
+  hover d line col = ROk (Some (hover_text e, (as_position (ts tok) (d_text d), as_position (te tok) (d_text d)))).
+Proof. exact hover_at. Qed.
+Print Assumptions C14_hover_at.
+
+(* non-vacuity: the two witnesses of the repaired defect in one program, with a doc comment -
+     type t = int;
+     // doc
+     proc k(a: t) { var k: t; var t: t; t := a; k := t; }
+     proc main() {}
+   the procedure k declares a variable k and a variable t named like the type of its parameter *)
+Definition s_t : text := [116]. Definition s_k : text := [107].
+Definition var_ (x : text) (ty : text) : avardecl :=
+  {| v_c1 := c0; v_c2 := c0; v_x := x; v_c3 := c0; v_t := TName c0 ty; v_c4 := c0 |}.
+Definition c14_p : aprog :=
+  {| a_decls :=
+       [ DType c0 c0 s_t c0 (TName c0 s_int) c0;
+         DProc [str " doc"] c0 s_k c0 (Some (PVal c0 s_a c0 (TName c0 s_t), [])) c0 c0
+           [ var_ s_k s_t; var_ s_t s_t ]
+           (SCons (SAsg (nm s_t) c0 (e_f (FVar (nm s_a))) c0) (SCons (SAsg (nm s_k) c0 (e_f (FVar (nm s_t))) c0) SNil)) c0;
+         DProc c0 c0 s_main c0 None c0 c0 [] SNil c0 ];
+     a_ceof := c0 |}.
+Definition c14_tree : program := Eval vm_compute in expected c14_p.
+Definition c14_table : gtable := Eval vm_compute in match build_res c14_tree with ROk (_, g) => g | RFail _ => [] end.
+Definition c14_valid_text : text :=
+  str "type t = int;" ++ [10] ++ str "// doc" ++ [10] ++ str "proc k(a: t) { var k: t; var t: t; t := a; k := t; }" ++ [10]
+  ++ str "proc main() {}".
+
+Example C14_ex_well_typed : well_typed (expected c14_p) c14_table.
+Proof.
+  change (expected c14_p) with c14_tree. split.
+  - unfold wf_program. eexists. split; [unfold c14_tree; cbn [pg_decls]; decls|].
+    split; [vm_compute; reflexivity|]. eexists. split; vm_compute; reflexivity.
+  - unfold wt_bodies, c14_tree. cbn [pg_decls].
+    repeat (apply Forall_cons; [split; [unfold has_entry; cbn [fst pd_name]; try exact I; vm_compute; discriminate|]|]);
+      [| | |apply Forall_nil].
+    + exact I.
+    + unfold wt_body. cbn [fst snd]. intros pe [name [Hn [Hl _]]]. injection Hn as <-. vm_compute in Hl. injection Hl as <-.
+      cbn [pe_local pd_stmts]. st.
+    + unfold wt_body. cbn [fst snd]. intros pe [name [Hn [Hl _]]]. injection Hn as <-. vm_compute in Hl. injection Hl as <-.
+      cbn [pe_local pd_stmts]. st.
+Qed.
+
+Example C14_ex_layout :
+  prog_ok c14_p = true /\
+  match lex c14_valid_text with Some toks => map tk toks = flatten c14_p ++ [Eof] | None => False end.
+Proof. vm_compute. split; reflexivity. Qed.
+
+(* the theorem applied: token 7 (bytes 26..27) is the name `k` of the procedure (global: shows the procedure
+   although it declares a variable k), token 17 (bytes 43..44) the type name `t` in `var k: t` (global: the type,
+   although a variable t is declared) *)
+Ltac in_list := vm_compute; repeat first [left; reflexivity | right].
+
+Example C14_hover_valid_ex :
+  match lex c14_valid_text, new_doc_res c14_valid_text with
+  | Some toks, ODone d =>
+      (forall line col, get_insertion_index line col c14_valid_text = 26%N ->
+         hover d line col = ROk (Some (str "```spl" ++ [10] ++ str "proc k(a: int)" ++ [10] ++ str "```" ++ [10] ++ str "---"
+                                       ++ [10] ++ str "doc" ++ [10], ((2, 5), (2, 6)))))
+      /\ (forall line col, get_insertion_index line col c14_valid_text = 43%N ->
+         hover d line col = ROk (Some (str "```spl" ++ [10] ++ str "int" ++ [10] ++ str "```", ((2, 22), (2, 23)))))
+  | _, _ => False
+  end.
+Proof.
+  destruct C14_ex_layout as [Hok Hl].
+  destruct (lex c14_valid_text) as [toks|] eqn:El; [|contradiction].
+  destruct (new_doc_res c14_valid_text) as [d|s|] eqn:Ed;
+    [|vm_compute in Ed; discriminate Ed|vm_compute in Ed; discriminate Ed].
+  pose proof (C14_hover_valid c14_p c14_table c14_valid_text toks d Hok C14_ex_well_typed El Hl Ed) as H.
+  assert (Et : toks = match lex c14_valid_text with Some x => x | None => [] end) by now rewrite El.
+  vm_compute in Et.
+  split.
+  - intros line col Hi.
+    destruct (H (Some s_k) 7%nat s_k ScGlobal ltac:(in_list) {| tk := Ident s_k; ts := 26; te := 27; terr := [] |} line col
+                ltac:(rewrite Et; reflexivity) ltac:(rewrite Hi; vm_compute; discriminate) ltac:(rewrite Hi; reflexivity)) as [e [Hb He]].
+    rewrite He. assert (Ed' : d = match new_doc_res c14_valid_text with ODone x => x | _ => d end) by now rewrite Ed.
+    rewrite Ed' in Hb. vm_compute in Hb. injection Hb as <-. vm_compute. reflexivity.
+  - intros line col Hi.
+    destruct (H (Some s_k) 17%nat s_t ScGlobal ltac:(in_list) {| tk := Ident s_t; ts := 43; te := 44; terr := [] |} line col
+                ltac:(rewrite Et; reflexivity) ltac:(rewrite Hi; vm_compute; discriminate) ltac:(rewrite Hi; reflexivity)) as [e [Hb He]].
+    rewrite He. assert (Ed' : d = match new_doc_res c14_valid_text with ODone x => x | _ => d end) by now rewrite Ed.
+    rewrite Ed' in Hb. vm_compute in Hb. injection Hb as <-. vm_compute. reflexivity.
+Qed.
+
+(* ... and evaluated independently of the theorem: every identifier of the program *)
+Example C14_hover_valid_eval :
+  match new_doc_res c14_valid_text with
+  | ODone d =>
+      let code s := str "```spl" ++ [10] ++ str s ++ [10] ++ str "```" in
+      let doc := [10] ++ str "---" ++ [10] ++ str "doc" ++ [10] in
+      map (fun c => option_map fst (match hover d 2 c with ROk r => r | RFail _ => None end)) [5; 7; 10; 19; 22; 29; 32; 35; 40; 43; 48]
+      = [Some (code "proc k(a: int)" ++ doc); Some (code "a: int"); Some (code "int"); Some (code "k: int"); Some (code "int");
+         Some (code "t: int"); Some (code "int"); Some (code "t: int"); Some (code "a: int"); Some (code "k: int"); Some (code "t: int")]
+      /\ option_map fst (match hover d 0 5 with ROk r => r | RFail _ => None end) = Some (code "int")
+  | _ => False
+  end.
+Proof. vm_compute. split; reflexivity. Qed.
